@@ -8,7 +8,9 @@ Values travel in one TAB field as space-separated prefix tokens:
   | L <n> v₁…vₙ | M <n> k₁ v₁ … kₙ vₙ (keys hex, sorted) | Z <n> v₁…vₙ (SortedItems order)
 
 Requests:
-  pair  <a> <b>      → eq= qe= cmp= pmc= hk= kh= tr= lz= in= ne= lt= le= gt= ge= lossy= seq= scmp=
+  pair  <a> <b>      → eq= qe= cmp= pmc= hk= kh= tr= lz= in= ne= lt= le= gt= ge= lossy= seq= scmp= weq= wqe= wf=
+                       (weq/wqe: `Equals` as written — the range-and-lookup loops of Map.Equals/Set.Equals;
+                        wf: both values are well-formed, i.e. in the canonical form the theorems assume)
   sort  <L …>        → ok <i,j,…> lossy=<0|1>   | err lossy=…      (indices into the input)
   mkset <L …>        → ok <i,j,…>               | err               (kept representative per slot)
 -/
@@ -136,7 +138,9 @@ def handle : List String → String
         "lt=" ++ showOB (opLt a b), "le=" ++ showOB (opLe a b),
         "gt=" ++ showOB (opGt a b), "ge=" ++ showOB (opGe a b),
         "lossy=" ++ b01 (lossy a b),
-        "seq=" ++ b01 (xequals a b), "scmp=" ++ showOI (xcompare a b)]
+        "seq=" ++ b01 (xequals a b), "scmp=" ++ showOI (xcompare a b),
+        "weq=" ++ b01 (equalsW a b), "wqe=" ++ b01 (equalsW b a),
+        "wf=" ++ b01 (wf a && wf b)]
     | _, _ => "error\tbad-value"
   | ["sort", l] =>
     match parseField l with
